@@ -7,7 +7,7 @@ import os
 from vf import runner
 
 
-def write(prop, tier, seed, mod, results, all_viol, wall, partial, n_viol, n_known, problems):
+def write(prop, tier, seed, mod, results, all_viol, wall, partial, n_viol, n_known, problems, extra=None):
     os.makedirs(runner.EVIDENCE_DIR, exist_ok=True)
     jobs = []
     tot = {"paths": 0, "obligations": 0, "discharged": 0, "unknown": 0, "infeasible": 0, "inconclusive": 0,
@@ -105,6 +105,7 @@ def write(prop, tier, seed, mod, results, all_viol, wall, partial, n_viol, n_kno
             "known_findings_matched": n_known,
             "problems": [f"{a}: {b.splitlines()[0] if b else b}" for a, b in problems][:40],
             "exhaustive": False,
+            "self_checks": extra or {},
             "repo_head": __import__("vf.main", fromlist=["git_head"]).git_head("/repo"),
             "checker_cmd": f"./check {prop} --tier {tier}",
             "trusted_base": ["z3 5.1.0 (python wheel)", "CPython 3.12 / numpy object-array semantics", "symnp engine (/verif/symnp)", "oracles (/verif/oracle), derived numerically from textbook matrices"],
